@@ -181,7 +181,7 @@ PLAIN_IDENTS = ["request.method", "response.status", "a", "x1", "protocol.name",
 LETTERS = ["\u00e9", "\u00df", "\u03a9", "\u65e5"]
 
 
-def gen_c17(ctx, names, n_random):
+def gen_c17(ctx, names, n_random, table=None):
     """-> list of (stream, text).  Streams:
        wf        well-lexed texts (double-quoted literals terminated, no stray backslash): full oracle
        gram      wf and grammatical KFL: additionally Validate must accept
@@ -295,6 +295,14 @@ def gen_c17(ctx, names, n_random):
         if stream == "wf" and has_raw_or_char(q):
             stream = "rawchar"
         out.append((stream, q))
+    # ---- already expanded queries (and expansions glued to fresh macro names)
+    if table:
+        wf = [q for st, q in out if st in ("wf", "gram") and q]
+        for q in ctx.rng.sample(wf, min(len(wf), max(20, n_random // 8))):
+            e = ref_expand(q, table)
+            out.append(("wf", e))
+            out.append(("wf", e + " and " + ctx.rng.choice(names)))
+            out.append(("wf", ctx.rng.choice(names) + " or " + e))
     return out
 
 
